@@ -1,6 +1,7 @@
 package main
 
 import (
+	"strconv"
 	"os"
 	"archive/tar"
 	"bytes"
@@ -164,6 +165,80 @@ func init() {
 		ra := observe(da, len(ba))
 		rb := observe(db, len(bb))
 		return ra + " ## " + rb
+	}
+	// debhist script buf0 buf1 ...: a LIFETIME HISTORY over several packages.  Script tokens (blank separated), i = package index:
+	//   L<i> Load from memory   F<i> LoadFile (a real file)   O<i> observe (control, index, whole payload)
+	//   C<i> Deb.Close()        X<i> the close function LoadFile returned        S<i>:<role>:<keyring> CheckDebsig
+	// A package may be loaded again after it was closed (a new handle); closing twice is allowed (LoadFile documents that
+	// callers may use either way of closing).  Emits one item per O and S token, in order.
+	ops["debhist"] = func(a []string) string {
+		type handle struct {
+			d      *deb.Deb
+			closer deb.Closer
+			size   int
+		}
+		hs := map[int]*handle{}
+		var files []string
+		defer func() {
+			for _, f := range files {
+				os.Remove(f)
+			}
+		}()
+		out := []string{}
+		for _, tok := range strings.Fields(arg(a, 0)) {
+			parts := strings.Split(tok[1:], ":")
+			i, _ := strconv.Atoi(parts[0])
+			buf := []byte(arg(a, 1+i))
+			switch tok[0] {
+			case 'L':
+				d, err := deb.Load(bytes.NewReader(buf), fmt.Sprintf("p%d.deb", i))
+				if err != nil {
+					return "loaderr"
+				}
+				hs[i] = &handle{d: d, size: len(buf)}
+			case 'F':
+				f, err := ioutil.TempFile("/var/tmp", "verif-deb-*.deb")
+				if err != nil {
+					return "harness-error"
+				}
+				files = append(files, f.Name())
+				f.Write(buf)
+				f.Close()
+				d, closer, err := deb.LoadFile(f.Name())
+				if err != nil {
+					return "loaderr"
+				}
+				hs[i] = &handle{d: d, closer: closer, size: len(buf)}
+			case 'O':
+				out = append(out, "( "+observe(hs[i].d, hs[i].size)+" )")
+			case 'C':
+				hs[i].d.Close()
+			case 'X':
+				if hs[i].closer != nil {
+					hs[i].closer()
+				} else {
+					hs[i].d.Close()
+				}
+			case 'S':
+				kr := keyringOf(parts[2])
+				var el openpgp.EntityList
+				if kr != nil {
+					el = *kr
+				}
+				e, err := hs[i].d.CheckDebsig(el, parts[1])
+				if err == nil && e == nil {
+					out = append(out, "ok-nil")
+				} else if err != nil {
+					out = append(out, "err")
+				} else {
+					out = append(out, "ok:"+entityID(e))
+				}
+			}
+		}
+		for _, h := range hs {
+			h.d.Close()
+		}
+		return showList(out)
 	}
 	// debloadfile buf -> the same package through LoadFile (a real file under /var/tmp, closed by the returned closer)
 	ops["debloadfile"] = func(a []string) string {
